@@ -36,12 +36,22 @@ pub fn make_rangeproof_bytes(r: &mut Rng, len: usize) -> Vec<u8> {
 }
 
 pub fn make_surjection_bytes(r: &mut Rng, len: usize) -> Vec<u8> {
-    // 2 bytes n_inputs, bitmap, 32 * (1 + used)
-    assert!(len >= 67 && (len - 3) % 32 == 0 && (len - 3) / 32 - 1 <= 8, "surjection proof length class {}", len);
-    let used = (len - 3) / 32 - 1;
-    let mut v = vec![8u8, 0u8, ((1u16 << used) - 1) as u8];
-    v.extend(pools::rbytes(r, 32 * (1 + used)));
-    v
+    // 2 bytes n_inputs, bitmap of ceil(n_inputs / 8) bytes, 32 * (1 + used)
+    for m in 1..=32usize {
+        if len < 2 + m + 32 { break; }
+        let rem = len - 2 - m;
+        if rem % 32 != 0 { continue; }
+        let used = rem / 32 - 1;
+        let n = m * 8;
+        if used == 0 || used > n { continue; }
+        let mut v = vec![(n % 256) as u8, (n / 256) as u8];
+        let mut bitmap = vec![0u8; m];
+        for k in 0..used { bitmap[k / 8] |= 1 << (k % 8); }
+        v.extend(bitmap);
+        v.extend(pools::rbytes(r, 32 * (1 + used)));
+        return v;
+    }
+    panic!("surjection proof length class {}", len);
 }
 
 fn fill_bytes(b: &Value, r: &mut Rng, ctx: &mut Ctx) {
